@@ -91,6 +91,7 @@ def run(tier: str, budget: Budget, rnd, repo_mod) -> StreamResult:
         objs = [o0]
         hist = []
         sig = set()
+        shared: dict = {}
         for step in range(steps):
             o = rnd.choice(objs)
             g = o.game
@@ -160,8 +161,22 @@ def run(tier: str, budget: Budget, rnd, repo_mod) -> StreamResult:
                             o.det.setdefault(cc, [False, False])[w] = True
                 elif op in ("bounds_hi_all", "bounds_lo_all"):
                     w = 1 if op == "bounds_hi_all" else 0
+                    # one float64 array object per history, handed to the bulk bound setters of EVERY live object again and again
+                    # (a caller's pre-allocated "no information" vector): the setter must read it, never write it
+                    if len(allvals) == N and rnd.random() < 0.5:
+                        if shared.get("n") != N:
+                            shared.update(n=N, arr=fall.copy(), vals=list(allvals))
+                        fall, allvals = shared["arr"], shared["vals"]
+                        res.count("bulk-bounds:shared-array")
                     line = f"tab bounds {o.name} {'hi' if w else 'lo'} none {rlist(allvals)}"
+                    arg_before = fall.copy()
                     (g.set_upper_bounds if w else g.set_lower_bounds)(fall)
+                    if not np.array_equal(fall, arg_before):
+                        res.violation("a bulk bound setter modified the array it was given (the caller's vector now holds other numbers, "
+                                      "which the next game it is handed to will receive as bounds)",
+                                      {"n": n, "history": hist + [line], "argument_before": [float(x) for x in arg_before],
+                                       "argument_after": [float(x) for x in fall]}, key="table:bulk-setter-writes-argument")
+                        shared.clear()
                     for cc in range(N):
                         if cc not in o.spec:
                             o.det.setdefault(cc, [False, False])[w] = True
@@ -387,11 +402,99 @@ def run(tier: str, budget: Budget, rnd, repo_mod) -> StreamResult:
                                              "model": outs[i]})
                 if len(res.disagreements) > 5:
                     break
+    nonfinite_cases(res, rnd, tier)
     return res
+
+
+def nonfinite_run(n: int, seed: int):
+    """Oracle on the real code only (the model's values are rationals): the clauses of C17 on a game whose BOUNDS of unknown
+    coalitions are ±inf (`set_upper_bounds(np.full(N, inf))` is the natural 'nothing known yet' initialisation) or of the
+    largest finite magnitude.  → list of failed clauses"""
+    import random
+    from incomplete_cooperative.coalitions import Coalition
+    from incomplete_cooperative.game import IncompleteCooperativeGame
+    r = random.Random(seed)
+    N = 2 ** n
+    g = IncompleteCooperativeGame(n)
+    known = {0: 0.0}
+    for c in r.sample(range(1, N), r.randint(1, N - 1)):
+        known[c] = float(r.randint(-20, 20))
+        (g.set_value if r.random() < 0.5 else g.reveal_value)(known[c], Coalition(c))
+    big = r.choice([float("inf"), float("inf"), 1.7e308])
+    how = r.choice(["bulk", "bulk", "single", "subset"])
+    unknown = [c for c in range(N) if c not in known]
+    if how == "bulk":
+        g.set_upper_bounds(np.full(N, big)); g.set_lower_bounds(np.full(N, -big))
+    elif how == "single":
+        for c in unknown:
+            g.set_upper_bound(big, Coalition(c)); g.set_lower_bound(-big if r.random() < 0.7 else 0.0, Coalition(c))
+    else:
+        cs = r.sample(range(N), r.randint(1, N))
+        g.set_upper_bounds(np.full(len(cs), big), [Coalition(c) for c in cs])
+    bad = []
+
+    def state(x):
+        return (np.array(x.are_values_known(), dtype=bool), np.array(x.get_lower_bounds(), dtype=float), np.array(x.get_upper_bounds(), dtype=float))
+    K0, L0, U0 = state(g)
+    if [bool(k) for k in K0] != [c in known for c in range(N)]:
+        bad.append("bound setters changed which coalitions are known")
+    for c, v in known.items():
+        if L0[c] != v or U0[c] != v:
+            bad.append(f"bound setters altered the known coalition {c}")
+            break
+    ng = -g
+    K1, L1, U1 = state(ng)
+    if not np.array_equal(K1, K0):
+        bad.append("negation changed which coalitions are known")
+    if not (np.array_equal(L1, -U0, equal_nan=False) and np.array_equal(U1, -L0, equal_nan=False)):
+        bad.append("negation does not swap and negate the bounds")
+    K2, L2, U2 = state(-ng)
+    if not (np.array_equal(K2, K0) and np.array_equal(L2, L0) and np.array_equal(U2, U0)):
+        bad.append("negation is not an involution")
+    for x, nm in ((g, "game"), (ng, "negated game")):
+        for c in range(N):
+            k = bool(x.is_value_known(Coalition(c)))
+            if k != (c in known):
+                bad.append(f"{nm}: is_value_known({c}) = {k} but the coalition was {'set' if c in known else 'never set'}")
+                break
+            got = x.get_known_value(Coalition(c))
+            if (got is None) != (c not in known):
+                bad.append(f"{nm}: get_known_value({c}) returned {got!r} for {'a known' if c in known else 'an unknown'} coalition")
+                break
+            if c not in known:
+                try:
+                    val = x.get_value(Coalition(c))
+                    bad.append(f"{nm}: get_value({c}) returned {val!r} for an unknown coalition")
+                    break
+                except Exception:       # noqa: BLE001
+                    pass
+        kv = np.array(x.get_known_values(), dtype=float)
+        if [bool(np.isnan(kv[c])) for c in range(N)] != [c not in known for c in range(N)]:
+            bad.append(f"{nm}: get_known_values() is not NaN exactly at the unknown coalitions")
+    return bad
+
+
+def nonfinite_cases(res, rnd, tier) -> None:
+    for _ in range(40 if tier == "quick" else 600):
+        n, seed = rnd.randint(1, 4), rnd.randrange(10 ** 9)
+        try:
+            bad = nonfinite_run(n, seed)
+        except Exception as e:      # noqa: BLE001
+            bad = [f"a public operation raised {type(e).__name__}: {e}"]
+        res.evaluations += 1
+        res.count("nonfinite-bounds")
+        if bad:
+            res.violation("infinite / largest-finite bounds on unknown coalitions: " + "; ".join(bad[:3]),
+                          {"kind": "nonfinite", "n": n, "seed": seed, "failed": bad[:6],
+                           "how": "harness/corr_table.py nonfinite_run(n, seed) on the real IncompleteCooperativeGame"}, key="table:nonfinite-bounds")
+            return
 
 
 # ---------------------------------------------------------------------------------------------------------------
 # replay: re-execute a recorded history (protocol lines without the object name) on a fresh real object
+
+ARG_WRITTEN: list = []      # bulk bound setters that wrote into the array they were given (filled by apply_line)
+
 
 def apply_line(g, words: list[str]):
     """execute one `tab …` operation (object name already removed) on a real game; returns the canonical answer"""
@@ -421,7 +524,11 @@ def apply_line(g, words: list[str]):
             g.set_known_values([float(x) for x in parse_rlist(words[2])], cs(words[1]))
         elif op == "bounds":
             f = g.set_upper_bounds if words[1] == "hi" else g.set_lower_bounds
-            f(fv(words[3]), cs(words[2])) if words[2] != "none" else f(fv(words[3]))
+            arg = fv(words[3])
+            arg0 = arg.copy()
+            f(arg, cs(words[2])) if words[2] != "none" else f(arg)
+            if not np.array_equal(arg, arg0):
+                ARG_WRITTEN.append((" ".join(words[:3]), arg0.tolist(), arg.tolist()))
         elif op == "compute":
             g.compute_bounds()
         else:
@@ -436,9 +543,13 @@ def replay(prop: str, payload: dict):
     checked against the abstract spec (set / revealed and not since unset / reset) recomputed from the history."""
     from incomplete_cooperative.game import IncompleteCooperativeGame
     inp = payload["input"]
+    if inp.get("kind") == "nonfinite":
+        bad = nonfinite_run(inp["n"], inp["seed"])
+        return bool(bad), ("reproduced on the real code: " + "; ".join(bad[:4])) if bad else "the stored case no longer fails"
     n, hist = inp["n"], inp["history"]
     objs = {}
     msgs = []
+    del ARG_WRITTEN[:]
     for line in hist:
         w = line.split()
         if w[0] == "tab":
@@ -454,7 +565,7 @@ def replay(prop: str, payload: dict):
             objs[name] = IncompleteCooperativeGame(n)
         ans = apply_line(objs[name], [w[0]] + w[2:])
         msgs.append(f"{line} -> {ans}")
-    bad = []
+    bad = [f"`{w_}` wrote into the array it was given: {a0} -> {a1}" for w_, a0, a1 in ARG_WRITTEN]
     for name, g in objs.items():
         K, L, U = dump_impl(g)
         for c in range(len(K)):
